@@ -37,7 +37,9 @@ def scratch_root():
     global _SCRATCH, _OWNER_PID
     if _SCRATCH is None:
         base = "/dev/shm" if os.path.isdir("/dev/shm") and os.access("/dev/shm", os.W_OK) else tempfile.gettempdir()
-        _SCRATCH = os.path.join(base, "bsim-%d" % os.getpid())
+        # fixed-length names everywhere below: path lengths end up in .pyc sizes (co_filename), hence in the
+        # simulated write sizes, so they must not depend on how many digits a pid has
+        _SCRATCH = os.path.join(base, "bsim-%07d" % os.getpid())
         shutil.rmtree(_SCRATCH, ignore_errors=True)
         os.makedirs(_SCRATCH)
         _OWNER_PID = os.getpid()
@@ -138,7 +140,7 @@ def _worker_init(engine_name, tree, scratch):
     from . import engines
     faulthandler.enable()
     eng = engines.get(engine_name)
-    wdir = os.path.join(scratch, "w%d" % os.getpid())
+    wdir = os.path.join(scratch, "w%07d" % os.getpid())
     os.makedirs(wdir, exist_ok=True)
     eng.init_worker(tree, wdir)
     _W["eng"] = eng
@@ -293,7 +295,7 @@ def run_check(eng, tier, jobs=None, runs=None, quiet=False):
         return 2
 
     # ---- violations: minimise, write replay, attribute -------------------------------
-    eng.init_worker(tree, os.path.join(scratch, "main"))
+    eng.init_worker(tree, os.path.join(scratch, "wMAIN000"))
     reported = []
     known = [k for k in load_known_findings() if k["property"] == eng.prop]
     open_known = [k for k in known if k.get("status") == "open"]
@@ -440,7 +442,7 @@ def replay_file(eng_lookup, path, quiet=False):
     from . import engines
     eng = engines.get(rp["engine"])
     tree, tree_digest = snapshot_tree()
-    eng.init_worker(tree, os.path.join(scratch_root(), "replay"))
+    eng.init_worker(tree, os.path.join(scratch_root(), "wREPLAY0"))
     ch = Chooser(replay=rp["draws"])
     out = eng.execute(rp["scenario"], ch)
     want = (rp["violation"]["oracle"], rp["violation"].get("actor", ""))
